@@ -200,8 +200,11 @@ def compare_queries(G, M, q, col, cls, removal, h, prefix='C02', light=False):
         exp_d = nx.density(S) if n_ > 1 else 0
         got = _try(lambda: dn.density(G, t=q))
         if not (isinstance(got, (int, float)) and abs(got - exp_d) < 1e-9):
+            # what finding D11 (a self-loop counted once by size) makes of the density
+            alt_d = (2.0 * d11_size / (n_ * (n_ - 1))) if (not directed and self_loops and n_ > 1) else None
             col.violation(prefix + '.density', cls, removal, h, 'dn.density(G,%s) = %r, static graph gives %r' % (tq, got, exp_d),
-                          d12=(q is not None and got == 0), d11=(q is None and not directed and self_loops))
+                          d12=(q is not None and got == 0),
+                          d11=(not directed and bool(self_loops) and (q is None or (alt_d is not None and isinstance(got, (int, float)) and abs(got - alt_d) < 1e-9))))
         exp_non = sorted(tuple(sorted(p)) for p in nx.non_edges(nx.Graph(S).subgraph(S.nodes()))) if not directed else None
         if not directed:
             full = nx.Graph()
